@@ -356,7 +356,7 @@ func restoredFieldsRule(P *Program, R *Report) {
 	for _, fn := range P.AllFuncs {
 		for _, s := range sinksOf(fn) {
 			if strings.HasSuffix(s.target, "revocation.SignedAccumulator.Accumulator") || s.target == saccD+".Accumulator" {
-				writers = append(writers, FuncKey(fn))
+				writers = append(writers, FuncKey(ownerOf(P, fn)))
 			}
 		}
 	}
